@@ -42,7 +42,7 @@ func (w *world) tokenRequest(a *actor, value map[string]any, watch []string) (cr
 	from := a.c.EventCount()
 	w.logf("ACTOR %s [holding %v] -> maketoken %v", a.c.ID, a.perms, value)
 	a.c.Send(vclient.Msg{"type": "groupaction", "kind": "maketoken", "source": a.c.ID, "value": value})
-	if !a.c.Ping(20 * time.Second) {
+	if !ping(a.c) {
 		w.inconclusive("no pong after maketoken")
 		return nil, nil, false
 	}
@@ -177,9 +177,9 @@ func (e *env) runDelegation(j job) {
 			if n == nil {
 				return
 			}
-			jm, ok := n.JoinToken(w.g, "invitee-"+w.tag, ts)
+			jm, ok := joinToken(n, w.g, "invitee-"+w.tag, ts)
 			if ok && jm.Str("kind") == "join" {
-				n.Leave(w.g)
+				leave(n, w.g)
 			}
 			n.Close()
 			if !ok {
@@ -196,7 +196,7 @@ func (e *env) runDelegation(j job) {
 			if n2 == nil {
 				return
 			}
-			jm2, ok := n2.JoinToken(w.h, "invitee-"+w.tag, ts)
+			jm2, ok := joinToken(n2, w.h, "invitee-"+w.tag, ts)
 			if ok && jm2.Str("kind") == "join" {
 				run.Violation("token-for-other-group", what+"; the token was honoured in another group", w.replay(j))
 			} else if ok {
@@ -238,7 +238,7 @@ func (e *env) runCrossGroup(j job) {
 		w.logf("ACTOR %s [holding %v] -> edittoken %v", a.c.ID, a.perms, v)
 		tokenMu.Lock()
 		a.c.Send(vclient.Msg{"type": "groupaction", "kind": "edittoken", "source": a.c.ID, "value": v})
-		ok := a.c.Ping(20 * time.Second)
+		ok := ping(a.c)
 		tokenMu.Unlock()
 		if !ok {
 			w.inconclusive("no pong after edittoken")
@@ -306,7 +306,7 @@ func (e *env) runCrossGroup(j job) {
 			from := a.c.EventCount()
 			w.logf("ACTOR %s -> listtokens", a.c.ID)
 			a.c.Send(vclient.Msg{"type": "groupaction", "kind": "listtokens", "source": a.c.ID})
-			if !a.c.Ping(20 * time.Second) {
+			if !ping(a.c) {
 				w.inconclusive("no pong after listtokens")
 				return
 			}
@@ -368,7 +368,7 @@ func (w *world) moderate(a *actor, kind, perm string, wantHeld bool) bool {
 	w.hlp.Send(vclient.Msg{"type": "useraction", "kind": kind, "source": w.hlp.ID, "dest": a.c.ID})
 	m, ok := a.c.WaitForFrom(from, func(m vclient.Msg) bool {
 		return m.Str("type") == "joined" && m.Str("kind") == "change" && has(m.StrList("permissions"), perm) == wantHeld
-	}, 30*time.Second)
+	}, wd)
 	if !ok {
 		w.inconclusive(fmt.Sprintf("the actor was never notified of %s", kind))
 		return false
@@ -448,7 +448,10 @@ func (e *env) runRevocation(j job) {
 			mk := a.c.EventCount()
 			w.logf("ACTOR %s [revoked:present] -> offer (renegotiation of %s)", a.c.ID, id)
 			a.c.Send(vclient.Msg{"type": "offer", "id": id, "label": "camera", "source": a.c.ID, "sdp": e.offer})
-			a.c.Ping(20 * time.Second)
+			if !ping(a.c) {
+				w.inconclusive("no pong after a renegotiation offer")
+				return
+			}
 			answered := false
 			for _, m := range news(a.c, mk) {
 				if m.Str("type") == "answer" && m.Str("id") == id {
@@ -530,7 +533,7 @@ func (e *env) runRevocationRace(j job) {
 		}
 		if i >= n && !acked.Load() {
 			// make sure some messages are sent after the notification
-			deadline := time.Now().Add(20 * time.Second)
+			deadline := time.Now().Add(wd)
 			for !acked.Load() && time.Now().Before(deadline) {
 				time.Sleep(time.Millisecond)
 			}
@@ -553,7 +556,10 @@ func (e *env) runRevocationRace(j job) {
 		}
 	}
 	wg.Wait()
-	a.c.Ping(20 * time.Second)
+	if !ping(a.c) {
+		w.inconclusive("no pong after the burst")
+		return
+	}
 	if !w.quiesce() {
 		return
 	}
